@@ -235,8 +235,14 @@ func run(r *simkit.Run) {
 				wTm, wPM = 14, 4
 			}
 		}
-		ev := simkit.Pick(c, "event", wMine, wDeliver, 4, 4, 3, 3, 4, 2, wInv, wInv, wHdr, wQry, wAri, wVote, wSub, wUns, wRem, wPM, wTm, wMin)
+		wClone := 0
+		if prof == "utxo" || prof == "crash" {
+			wClone = 5
+		}
+		ev := simkit.Pick(c, "event", wMine, wDeliver, 4, 4, 3, 3, 4, 2, wInv, wInv, wHdr, wQry, wAri, wVote, wSub, wUns, wRem, wPM, wTm, wMin, wClone)
 		switch ev {
+		case 20:
+			s.CloneCompare(c.Bool(500, "clone-flush-first"))
 		case 14: // submit a new transaction
 			t := s.buildPoolTx(simkit.Pick(c, "ptx-kind", 50, 25, 15, 10))
 			if t == nil {
